@@ -268,7 +268,7 @@ class Ctx:
         violation = None
         if new_fail:
             violation = {"kind": "impl_failing_input", "failure": new_fail[0], "others": len(new_fail) - 1,
-                         "other_failures": [{"sig": f["sig"], "what": f["what"][:300]} for f in new_fail[1:40]]}
+                         "other_failures": [{"sig": f["sig"], "what": f["what"][:300], "input": str(f["input"])[:400]} for f in new_fail[1:40]]}
         elif self.broken:
             found = None
             if hasattr(module, "search"):
